@@ -1,11 +1,28 @@
 package s0398
 
 type G1 struct {
-	F1x0 []int64
-	F1x1 []uint32
+	F3x0 uint64
+	F3x1 *float32
+	F3x2 []float64
+}
+
+type G2 struct {
+	F4x0 bool
+	F4x1 *string
+	F4x2 []int32
+}
+
+type G3 struct {
+	F5x0 int64
+	F5x1 uint32
+	F5x2 []uint64
 }
 
 type T struct {
-	F0 *int32
-	F1 *G1
+	F0 int32
+	F1 *int64
+	F2 []uint32
+	F3 G1
+	F4 *G2
+	F5 []G3
 }
